@@ -148,17 +148,18 @@ def published_schema_ok(decisions):
     return not list(_VALIDATOR.iter_errors(doc))
 
 
-def run_generic(base, local, remote, name, snapshot=False, extra=None, gstrat=None):
-    """One run of the generic JSON merger: decide_merge + apply_decisions (gstrat: {path: strategy})."""
+def run_generic(base, local, remote, name, snapshot=False, extra=None, gstrat=None, gtrans=None):
+    """One run of the generic JSON merger: decide_merge + apply_decisions (gstrat: {path: strategy}, gtrans: transient
+    paths)."""
     from nbdime.merging.generic import decide_merge
     from nbdime.merging.decisions import apply_decisions
     run = {"name": name}
     if extra:
         run.update(extra)
     try:
-        if gstrat:
+        if gstrat or gtrans:
             from nbdime.utils import Strategies
-            decisions = decide_merge(base, local, remote, Strategies(gstrat))
+            decisions = decide_merge(base, local, remote, Strategies(gstrat or {}, transients=list(gtrans or [])))
         else:
             decisions = decide_merge(base, local, remote)
         merged = apply_decisions(base, decisions)
